@@ -47,6 +47,8 @@ type concRun struct {
 	rep   *Reporter
 	cov   *Cov
 	cfg   *RunCfg
+
+	bigBatches bool
 }
 
 func newConcRun(cfg *RunCfg, rep *Reporter, cov *Cov, id string, opts OpenOpts) *concRun {
@@ -345,14 +347,20 @@ func (cr *concRun) clientLoop(c *perturbClient) {
 			cursor = klevdb.OffsetOldest
 		}
 	}
+	pubSeq := 0
 	pub := func() {
 		n := 1 + r.Intn(3)
 		if r.Chance(0.08) {
 			n = 0
+		} else if cr.opts.Typed && cr.bigBatches && pubSeq < 1000 && r.Chance(0.2) {
+			// through the typed wrapper: a batch far larger than any internal chunk size must still be
+			// one publish (one consecutive offset range, visible all at once)
+			n = 1030 + r.Intn(40)
 		}
 		o := &cOp{Kind: "publish", N: n}
 		for i := 0; i < n; i++ {
-			v := []byte(fmt.Sprintf("%s.c%d.%d|", cr.hist.id, c.id, len(c.ops)*8+i))
+			pubSeq++
+			v := []byte(fmt.Sprintf("%s.c%d.%d|", cr.hist.id, c.id, pubSeq))
 			if r.Chance(0.1) {
 				v = append(v, make([]byte, 150+r.Intn(4000))...)
 			}
@@ -984,11 +992,12 @@ func runC08(cfg *RunCfg, rep *Reporter, cov *Cov, ev *Evidence) {
 			continue
 		}
 		r := NewRand(cfg.Seed, 77, int64(i))
-		opts := OpenOpts{KeyIndex: true, TimeIdx: i%3 != 0, Rollover: pick(r, []int64{150, 300, 600, 5000}), KeepVer: i%2 == 0, AutoSync: i%5 == 0, NewVer: pick(r, []int{2, 2, 1})}
+		opts := OpenOpts{KeyIndex: true, TimeIdx: i%3 != 0, Rollover: pick(r, []int64{150, 300, 600, 5000}), KeepVer: i%2 == 0, AutoSync: i%5 == 0, NewVer: pick(r, []int{2, 2, 1}), Typed: i%7 == 5}
 		cr := newConcRun(cfg, rep, cov, fmt.Sprintf("p%d", i), opts)
 		if cr == nil {
 			continue
 		}
+		cr.bigBatches = i%49 == 5 // a few typed histories publish batches of more than a thousand messages (at most one per client)
 		cr.runPerturb(i, cfg.Seed, 3+r.Intn(6), 12+r.Intn(24))
 		cr.close()
 		if cov.Get("perturb.watchdog_fired") >= 2 {
